@@ -42,7 +42,7 @@ struct Probe {
 
 fn probe(c: &Case) -> Probe {
     let built = txlab::build(c);
-    let view = TxView::parse(&built.tx).unwrap_or_else(|| mc_core::report::machinery_failure(&format!("cannot read back {}", built.label)));
+    let view = TxView::parse(&built.tx).unwrap_or_else(|| crate::fail(&format!("cannot read back {}", built.label)));
     let ledger_size = view.ledger_size();
     let fee = view.body().map_get(2).and_then(|n| n.as_u64()).unwrap_or(0);
     let verdict = exec::run(&built);
@@ -66,12 +66,13 @@ pub fn run(ctx: Ctx) -> ! {
             *accepted_by_era.lock().unwrap().entry(p.built.era.name().into()).or_default() += 1;
         }
     };
+    crate::quiet::silence_stderr();
     for base in bases::bases() {
         let era = base.era;
         let p0 = probe(&base);
         note(&p0);
         if !p0.verdict.accepted() {
-            mc_core::report::machinery_failure(&format!("base {} not accepted: {:?}", base.label(), p0.verdict));
+            crate::fail(&format!("base {} not accepted: {:?}", base.label(), p0.verdict));
         }
         // fixtures = base + accepted single deviations (not of the dimensions under test)
         let ds: Vec<_> = devs::deviations(&base, if ctx.thorough { 2 } else { 1 }).into_iter().filter(|d| d.dim != "fee" && d.dim != "maxsize").collect();
@@ -113,7 +114,7 @@ pub fn run(ctx: Ctx) -> ! {
                 note(&q);
                 let min = params::MINFEE_A * q.ledger_size + params::MINFEE_B;
                 if q.fee as i128 != min as i128 + delta as i128 {
-                    mc_core::report::machinery_failure(&format!("{}: fee on the wire {} is not a*L+b{:+} = {}", q.built.label, q.fee, delta, min as i128 + delta as i128));
+                    crate::fail(&format!("{}: fee on the wire {} is not a*L+b{:+} = {}", q.built.label, q.fee, delta, min as i128 + delta as i128));
                 }
                 if q.verdict.accepted() != want_ok {
                     let what = if want_ok {
@@ -132,7 +133,7 @@ pub fn run(ctx: Ctx) -> ! {
                 let q = probe(&c);
                 note(&q);
                 if q.built.max_tx_size as i128 != q.ledger_size as i128 + delta as i128 {
-                    mc_core::report::machinery_failure(&format!("{}: size limit {} is not L{:+}", q.built.label, q.built.max_tx_size, delta));
+                    crate::fail(&format!("{}: size limit {} is not L{:+}", q.built.label, q.built.max_tx_size, delta));
                 }
                 if q.verdict.accepted() != want_ok {
                     let what = if want_ok {
@@ -165,11 +166,12 @@ pub fn run(ctx: Ctx) -> ! {
             samples.push(json!({"fixture": base.label(), "ledger_size": p0.ledger_size, "fee_in_base": p0.fee, "tx": hex::encode(&p0.built.tx)}));
         }
     }
+    crate::quiet::restore_stderr();
     let fx = fixtures_by_era.lock().unwrap().clone();
     let acc = accepted_by_era.lock().unwrap().clone();
     for era in POST_BYRON {
         if fx.get(era.name()).copied().unwrap_or(0) == 0 || acc.get(era.name()).copied().unwrap_or(0) == 0 {
-            mc_core::report::machinery_failure(&format!("C36 vacuous in era {}", era.name()));
+            crate::fail(&format!("C36 vacuous in era {}", era.name()));
         }
     }
     for d in &diag {
